@@ -21,6 +21,7 @@ type Env struct {
 	pre     *State // for pre() (loop entry)
 	fr      *Frame
 	names   map[string]*Val // explicit bindings (params of a callee, results, bound variables)
+	inOld   bool            // inside old(): a parameter names its entry value
 	useVars bool            // resolve source variables through DebugRef tracking (loop invariants)
 	pkg     *types.Package
 	callArg bool // names shadow everything (callee contract evaluated at a call site)
@@ -192,6 +193,9 @@ func (env *Env) ident(name string) *Val {
 	}
 	if env.useVars && env.fr != nil {
 		if v, ok := env.fr.vars[name]; ok {
+			if pv, isParam := env.names[name]; isParam && env.inOld && v.T != "addr" && pv.T != "addr" && pv.Ty != nil && v.Ty != nil && types.Identical(pv.Ty, v.Ty) {
+				return env.materialize(pv)
+			}
 			return env.materialize(v)
 		}
 	}
@@ -478,7 +482,11 @@ func (env *Env) call(n *ast.CallExpr) *Val {
 			if env.old == nil {
 				specErr("old() outside a two-state context")
 			}
-			return env.inState(env.old).eval(n.Args[0])
+			// parameters named inside old() are their entry values, also where
+			// the parameter variable has been assigned since
+			oe := env.inState(env.old)
+			oe.inOld = true
+			return oe.eval(n.Args[0])
 		case "pre":
 			if env.pre == nil {
 				specErr("pre() outside a loop invariant")
